@@ -654,6 +654,11 @@ class Field(Criterion, JSON):
         if self.table is not None:
             yield from self.table.nodes_()
 
+    def __hash__(self) -> int:
+        # Columns of different tables may share a name, so the table is part of the hash
+        ctx = DEFAULT_SQL_CONTEXT.copy(with_alias=True, with_namespace=True)
+        return hash(self.get_sql(ctx))
+
     @builder
     def replace_table(  # type:ignore[return]
         self, current_table: "Table" | None, new_table: "Table" | None
